@@ -105,6 +105,7 @@ type c05chan struct {
 	salt  uint64
 	id    string
 	trace []string
+	hangs int // hangs reported: each costs its full budget, a few are enough
 }
 
 func (c *c05chan) note(format string, a ...interface{}) {
@@ -557,6 +558,426 @@ func (c *c05chan) scenarioLarge(dir string) {
 	c.s.Count("scenario_large_" + c.bk)
 }
 
+// ------------------------------------------------------------------ scenario 4: invalidation seen by the CONSUMER
+
+// c05cConsumer reads from IoReader() — the property's observation point — until the
+// reader ends or fails.
+type c05cConsumer struct {
+	name string
+	rd   ChannelReader
+	wait usync.WaitCloser
+	from int64
+	size int // > 0: a snapshot reader
+	mu   sync.Mutex
+	got  []byte
+	gate chan struct{} // a snapshot consumer pauses half way until the gate opens
+	done chan error
+}
+
+func (k *c05cConsumer) n() int { k.mu.Lock(); defer k.mu.Unlock(); return len(k.got) }
+
+func (k *c05cConsumer) run() {
+	defer func() {
+		if r := recover(); r != nil {
+			k.done <- fmt.Errorf("panic in the reader: %v", r)
+		}
+	}()
+	buf := make([]byte, 512)
+	for {
+		if k.size > 0 {
+			if k.n() >= k.size {
+				k.done <- nil
+				return
+			}
+			if k.n() >= k.size/2 && k.gate != nil {
+				<-k.gate
+				k.gate = nil
+			}
+		}
+		want := len(buf)
+		if k.size > 0 && k.size-k.n() < want {
+			want = k.size - k.n()
+		}
+		n, err := k.rd.IoReader().Read(buf[:want])
+		k.mu.Lock()
+		k.got = append(k.got, buf[:n]...)
+		k.mu.Unlock()
+		if err != nil {
+			k.done <- err
+			return
+		}
+	}
+}
+
+// scenarioInvalidate: started readers with consumers blocked on IoReader() (at the
+// tail, behind it, in the middle of a snapshot); then the cache is reset (new
+// snapshot, replication-id switch, delete) or the writer is replaced. Every
+// consumer must END or FAIL (after a writer replacement: or keep following), and
+// whatever it was given must be the bytes written at its offsets.
+func (c *c05chan) scenarioInvalidate(dir string, kind int) {
+	r := c.r
+	c.trace = nil
+	c.salt = r.U64() % 100000
+	c.id = "inv"
+	logSize := int64(vfutil.Pick(r, []int{64, 256}))
+	c.ch = c05cNew(c.bk, dir, logSize, 0)
+	defer func() {
+		if c.ch != nil {
+			c.ch.Close()
+		}
+	}()
+	ch := c.ch
+	ch.SetRunId(c.id)
+	kinds := []string{"writer replacement", "new snapshot", "replication-id switch", "delete"}
+	c.note("invalidate %s by %s logSize=%d", c.bk, kinds[kind], logSize)
+	start := int64(100 + r.Intn(900))
+	feed := newC05cFeed()
+	var snap []byte
+	if r.Bool() {
+		size := 400 + r.Intn(3000)
+		snap = r.Bytes(size)
+		w, err := ch.NewRdbWriter(feed, start, int64(size))
+		if err != nil {
+			return
+		}
+		w.Start()
+		feed.Push(snap)
+		wdone := make(chan error, 1)
+		wctx := usync.NewWaitCloser(nil)
+		go func() { wdone <- w.Wait(wctx.Context()) }()
+		select {
+		case <-wdone:
+		case <-time.After(20 * time.Second):
+			c.s.Count("note_snapshot_writer_slow")
+			wctx.Close(nil)
+			return
+		}
+		w.Close()
+		c.note("snapshot %d %d", start, size)
+	}
+	w, err := ch.NewAofWritter(feed, start)
+	if err != nil {
+		return
+	}
+	w.Start()
+	right := start
+	push := func(n int) bool {
+		feed.Push(c05cSeg(c.salt, right, n))
+		right += int64(n)
+		return c.waitRight(right)
+	}
+	for i := 0; i < 4; i++ {
+		if !push(20 + r.Intn(int(logSize))) {
+			c.s.Count("note_writer_slow")
+			return
+		}
+	}
+	var cons []*c05cConsumer
+	open := func(name string, off int64, wantSnap bool) {
+		rd, err := ch.NewReader(Offset{RunId: c.id, Offset: off})
+		if err != nil {
+			if ch.IsValidOffset(Offset{RunId: c.id, Offset: off}) {
+				c.s.Violate("valid-not-readable", fmt.Sprintf("IsValidOffset(%d) but NewReader failed: %v", off, err), c.replay())
+			}
+			return
+		}
+		k := &c05cConsumer{name: name, rd: rd, wait: usync.NewWaitCloser(nil), from: off, done: make(chan error, 1)}
+		if !rd.IsAof() {
+			k.size = int(rd.Size())
+			k.gate = make(chan struct{})
+			k.from = 0
+		} else if wantSnap {
+			rd.Close()
+			return
+		}
+		rd.Start(k.wait)
+		go k.run()
+		cons = append(cons, k)
+		c.note("consumer %s at %d (snapshot %v)", name, off, k.size > 0)
+	}
+	if snap != nil {
+		open("snapshot", start-1, true)
+	}
+	open("behind", start+(right-start)/3, false)
+	open("tail", right, false)
+	push(10 + r.Intn(50))
+	// every stream consumer reaches the tail and blocks there
+	dl := time.Now().Add(20 * time.Second)
+	for _, k := range cons {
+		for k.size == 0 && int64(k.n()) < right-k.from && time.Now().Before(dl) {
+			time.Sleep(time.Millisecond)
+		}
+		if k.size == 0 && int64(k.n()) < right-k.from {
+			c.s.Violate("reader-stalls-behind-writer", fmt.Sprintf("consumer %s opened at %d has %d bytes, the writer is at %d", k.name, k.from, k.n(), right), c.replay())
+			return
+		}
+	}
+	// ---- the invalidation (guarded: the reset itself must not hang on the readers it closes)
+	right0 := right
+	var w2 AofChannelWriter
+	feed2 := newC05cFeed()
+	invDone := make(chan struct{})
+	go func() {
+		defer close(invDone)
+		switch kind {
+		case 0:
+			w.Close()
+			if w2, err = ch.NewAofWritter(feed2, right); err == nil {
+				w2.Start()
+				feed2.Push(c05cSeg(c.salt, right, 300))
+				right += 300
+				c.waitRight(right)
+			}
+		case 1:
+			w.Close()
+			ch.NewRdbWriter(feed2, right+5000, 100)
+		case 2:
+			w.Close()
+			ch.SetRunId("inv2")
+		case 3:
+			w.Close()
+			ch.DelRunId(c.id)
+		}
+	}()
+	select {
+	case <-invDone:
+	case <-time.After(15 * time.Second):
+		c.s.Violate("invalidated-reader-hangs", fmt.Sprintf("%s with %d started readers at the tail (cache [%d,%d]): the call does not return and the readers' consumers stay blocked on IoReader()", kinds[kind], len(cons), start, right0), c.replay())
+		c.hangs++
+		c.ch = nil // wedged: leave it behind
+		return
+	}
+	c.note("invalidated at %d", right0)
+	for _, k := range cons {
+		if k.gate != nil {
+			close(k.gate)
+		}
+	}
+	for _, k := range cons {
+		ended := false
+		var kerr error
+		dl := time.Now().Add(10 * time.Second)
+		for time.Now().Before(dl) && !ended {
+			select {
+			case kerr = <-k.done:
+				ended = true
+			case <-time.After(2 * time.Millisecond):
+				// after a writer replacement a reader may also keep following
+				if kind == 0 && k.size == 0 && int64(k.n()) >= right-k.from {
+					ended = true
+				}
+			}
+		}
+		if !ended {
+			c.hangs++
+			c.s.Violate("invalidated-reader-hangs", fmt.Sprintf("%s: consumer %s (opened at %d, %d bytes delivered, cache ended at %d) neither ends nor fails — blocked on IoReader()", kinds[kind], k.name, k.from, k.n(), right0), c.replay())
+		}
+		_ = kerr
+		// whatever it delivered: the bytes written at its offsets, nothing else
+		k.mu.Lock()
+		got := append([]byte(nil), k.got...)
+		k.mu.Unlock()
+		if k.size > 0 {
+			if len(got) > len(snap) || string(got) != string(snap[:len(got)]) {
+				c.s.Violate("wrong-bytes", fmt.Sprintf("%s: the snapshot consumer was given %d bytes that are not a prefix of the snapshot", kinds[kind], len(got)), c.replay())
+			}
+			c.s.Add("mon_snapshot_bytes_checked", len(got))
+		} else {
+			if kind != 0 && int64(len(got)) > right0-k.from {
+				c.s.Violate("wrong-bytes", fmt.Sprintf("%s: consumer %s opened at %d was given %d bytes, the history it read ended at %d", kinds[kind], k.name, k.from, len(got), right0), c.replay())
+			}
+			c.checkBytes("invalidate/"+k.name, k.from, got)
+		}
+		k.rd.Close()
+		k.wait.Close(nil)
+	}
+	if w2 != nil {
+		w2.Close()
+	}
+	feed.Close()
+	feed2.Close()
+	c.s.Count("scenario_invalidate_" + c.bk)
+}
+
+// scenarioInvalidateLiveSnapshot: a consumer replays a snapshot WHILE it is received
+// (it has everything written so far and waits for more); the source reconnects and
+// the cache is reset (new snapshot, id switch, delete): the consumer must end or
+// fail, and what it got is a prefix of the snapshot.
+func (c *c05chan) scenarioInvalidateLiveSnapshot(dir string, kind int) {
+	r := c.r
+	c.trace = nil
+	c.id = "invs"
+	c.ch = c05cNew(c.bk, dir, 256, 0)
+	defer func() {
+		if c.ch != nil {
+			c.ch.Close()
+		}
+	}()
+	ch := c.ch
+	ch.SetRunId(c.id)
+	kinds := []string{"", "new snapshot", "replication-id switch", "delete"}
+	start := int64(100 + r.Intn(900))
+	size := 2000 + r.Intn(20000)
+	snap := r.Bytes(size)
+	half := size/4 + r.Intn(size/2)
+	c.note("invalidate %s live snapshot (%d,%d) after %d bytes by %s", c.bk, start, size, half, kinds[kind])
+	feed := newC05cFeed()
+	w, err := ch.NewRdbWriter(feed, start, int64(size))
+	if err != nil {
+		return
+	}
+	w.Start()
+	feed.Push(snap[:half])
+	rd, err := ch.NewReader(Offset{RunId: c.id, Offset: start - 1})
+	if err != nil {
+		if ch.IsValidOffset(Offset{RunId: c.id, Offset: start - 1}) {
+			c.s.Violate("valid-not-readable", fmt.Sprintf("snapshot being received at %d: NewReader(%d) failed: %v", start, start-1, err), c.replay())
+		}
+		w.Close()
+		return
+	}
+	if rd.IsAof() {
+		rd.Close()
+		w.Close()
+		return
+	}
+	k := &c05cConsumer{name: "live snapshot", rd: rd, wait: usync.NewWaitCloser(nil), size: size, done: make(chan error, 1)}
+	rd.Start(k.wait)
+	go k.run()
+	dl := time.Now().Add(20 * time.Second)
+	for k.n() < half && time.Now().Before(dl) {
+		time.Sleep(time.Millisecond)
+	}
+	if k.n() < half {
+		c.s.Violate("reader-stalls-behind-writer", fmt.Sprintf("snapshot (%d,%d): %d bytes received, the consumer replaying it has %d", start, size, half, k.n()), c.replay())
+		w.Close()
+		return
+	}
+	feed2 := newC05cFeed()
+	invDone := make(chan struct{})
+	go func() {
+		defer close(invDone)
+		w.Close() // the source connection is gone
+		switch kind {
+		case 1:
+			ch.NewRdbWriter(feed2, start+7000, 100)
+		case 2:
+			ch.SetRunId("invs2")
+		case 3:
+			ch.DelRunId(c.id)
+		}
+	}()
+	hang := func(detail string) {
+		c.s.Violate("invalidated-reader-hangs", detail, c.replay())
+		c.hangs++
+	}
+	select {
+	case <-invDone:
+	case <-time.After(15 * time.Second):
+		hang(fmt.Sprintf("%s while a consumer replays the snapshot being received: the call does not return", kinds[kind]))
+		c.ch = nil
+		return
+	}
+	select {
+	case <-k.done:
+	case <-time.After(10 * time.Second):
+		hang(fmt.Sprintf("%s: the consumer replaying the snapshot being received (%d of %d bytes) neither ends nor fails — blocked on IoReader()", kinds[kind], k.n(), size))
+	}
+	k.mu.Lock()
+	got := append([]byte(nil), k.got...)
+	k.mu.Unlock()
+	if len(got) > half || string(got) != string(snap[:len(got)]) {
+		c.s.Violate("wrong-bytes", fmt.Sprintf("%s: the snapshot consumer was given %d bytes, %d were received; prefix of the snapshot: %v", kinds[kind], len(got), half, len(got) <= size && string(got) == string(snap[:len(got)])), c.replay())
+	}
+	c.s.Add("mon_snapshot_bytes_checked", len(got))
+	rd.Close()
+	k.wait.Close(nil)
+	feed.Close()
+	feed2.Close()
+	c.s.Count("scenario_invalidate_live_snapshot_" + c.bk)
+}
+
+// ------------------------------------------------------------------ scenario 5: a reader opened while the snapshot writer finishes
+
+// scenarioSnapshotRace: small snapshots (as after a FULLRESYNC of a small source);
+// readers are opened continuously while the writer goroutine writes the last
+// bytes and commits the file (rename). While the offset is reported valid — before
+// and after the call — opening a reader there must not fail.
+func (c *c05chan) scenarioSnapshotRace(dir string, iters int) {
+	r := c.r
+	c.trace = nil
+	c.id = "race"
+	c.ch = c05cNew(c.bk, dir, 256, 0)
+	defer c.ch.Close()
+	ch := c.ch
+	ch.SetRunId(c.id)
+	for it := 0; it < iters; it++ {
+		start := int64(1000 + it*500)
+		size := 70 + r.Intn(90)
+		snap := r.Bytes(size)
+		feed := newC05cFeed()
+		w, err := ch.NewRdbWriter(feed, start, int64(size))
+		if err != nil {
+			return
+		}
+		stop := make(chan struct{})
+		var wg sync.WaitGroup
+		var failure atomic.Pointer[string]
+		var opened atomic.Int64
+		off := Offset{RunId: c.id, Offset: start}
+		wg.Add(1)
+		go func() {
+			defer wg.Done()
+			for {
+				select {
+				case <-stop:
+					return
+				default:
+				}
+				v1 := ch.IsValidOffset(off)
+				rd, err := ch.NewReader(off)
+				v2 := ch.IsValidOffset(off)
+				if err != nil {
+					if v1 && v2 && failure.Load() == nil {
+						m := fmt.Sprintf("snapshot (%d,%d): IsValidOffset(%d) is true before and after, NewReader(%d) failed: %v", start, size, start, start, err)
+						failure.Store(&m)
+					}
+					continue
+				}
+				opened.Add(1)
+				wt := usync.NewWaitCloser(nil)
+				rd.Start(wt)
+				rd.Close()
+				wt.Close(nil)
+			}
+		}()
+		w.Start()
+		feed.Push(snap[:size/2])
+		runtime.Gosched()
+		feed.Push(snap[size/2:])
+		wdone := make(chan error, 1)
+		wctx := usync.NewWaitCloser(nil)
+		go func() { wdone <- w.Wait(wctx.Context()) }()
+		select {
+		case <-wdone:
+		case <-time.After(20 * time.Second):
+			c.s.Count("note_snapshot_writer_slow")
+			wctx.Close(nil)
+		}
+		close(stop)
+		wg.Wait()
+		w.Close()
+		feed.Close()
+		c.s.Add("race_readers_opened", int(opened.Load()))
+		if m := failure.Load(); m != nil {
+			c.note("iteration %d", it)
+			c.s.Violate("valid-not-readable", *m, c.replay())
+			break
+		}
+	}
+	c.s.Count("scenario_snapshot_race_" + c.bk)
+}
+
 // ------------------------------------------------------------------ scenario 3: real concurrency
 
 func (c *c05chan) scenarioConcurrent(dir string, d time.Duration) {
@@ -739,5 +1160,12 @@ func TestVerifC05chan(t *testing.T) {
 		for i := 0; i < vfutil.Scale(2, 10); i++ {
 			c.scenarioConcurrent(t.TempDir(), time.Duration(vfutil.Scale(700, 3000))*time.Millisecond)
 		}
+		for i := 0; i < vfutil.Scale(8, 60) && c.hangs < 3; i++ {
+			c.scenarioInvalidate(t.TempDir(), i%4)
+		}
+		for i := 0; i < vfutil.Scale(3, 30) && c.hangs < 3; i++ {
+			c.scenarioInvalidateLiveSnapshot(t.TempDir(), 1+i%3)
+		}
+		c.scenarioSnapshotRace(t.TempDir(), vfutil.Scale(300, 3000))
 	}
 }
